@@ -19,13 +19,14 @@ ALPHABET = [
     ["solver", "B"],
     ["set_T", 3.0],
     ["set_t0", 0.2],
+    ["set_der", "lin_t"],
     ["set_value", "pg", "a"],
     ["set_value", "pg", "b"],
     ["set_initial", "x", "vec", [0.8, 0.5]],
     ["query", "sample"],
     ["solve"],
 ]
-INVALIDATING = ("subject_to", "clear_constraints", "add_objective", "method")
+INVALIDATING = ("subject_to", "clear_constraints", "add_objective", "method", "set_der")
 
 # second base: free horizon, guesses that depend on other guesses (time expressions, guess of T)
 BASE2 = P.case(state="scalar", horizon="Tfree", cons=[P.con("bc0")], obj=["mayer_tf", "integral", "T"], method="MS", N=2)
@@ -36,6 +37,7 @@ ALPHABET2 = [
     ["set_initial", "T", "const", 0.8],
     ["set_initial", "u", "expr", "sin"],
     ["subject_to", P.con("x_le")],
+    ["set_der", "lin"],
     ["method", "MS3g"],
     ["method", "DC2"],
     ["query", "sample"],
@@ -89,6 +91,6 @@ def run_case(case):
 
 def describe(tier):
     return dict(
-        rule="(base 2: free horizon, 10-operation alphabet with time-expression guesses, guesses of T, methods with other grids, query, solve) and every operation sequence of length <= d over a 16-operation alphabet (2 subject_to, clear_constraints, add_objective, 3 methods, 2 solver option sets, set_T, set_t0, 2 set_value, set_initial, query, solve) applied to a live Ocp (no implementation-side state merging), followed by the observation `solve` under a solver spy; oracle: the NLP (canonical rows, objective, start point, parameter vector) and solver settings seen by the solver equal those of a fresh Ocp declared from the final specification; a second solve sees the same; public declared state unchanged by queries/solves; distinct = digest of the observation",
+        rule="(base 2: free horizon, 11-operation alphabet with time-expression guesses, guesses of T, methods with other grids, query, solve) and every operation sequence of length <= d over a 17-operation alphabet (2 subject_to, clear_constraints, add_objective, 3 methods, 2 solver option sets, set_T, set_t0, set_der with another right-hand side, 2 set_value, set_initial, query, solve) applied to a live Ocp (no implementation-side state merging), followed by the observation `solve` under a solver spy; oracle: the NLP (canonical rows, objective, start point, parameter vector) and solver settings seen by the solver equal those of a fresh Ocp declared from the final specification; a second solve sees the same; public declared state unchanged by queries/solves; distinct = digest of the observation",
         bound="depth %d%s" % ((4, " + restricted depth 5") if tier == "thorough" else (3, "")),
         assumptions=["solver spy at casadi.Opti.solve/solve_limited/solver is 'what the solver receives'", "observation with ipopt max_iter=0 (returns the start point)", "rows compared at 2 generic points and the start point"])
